@@ -182,7 +182,7 @@ pub fn check(c: &Case) -> CheckResult {
     }
 }
 
-fn strategy() -> impl Strategy<Value = Case> {
+pub fn strategy() -> impl Strategy<Value = Case> {
     prop_oneof![
         12 => (g::message(g::MsgParams::default()), any::<(u32, u32)>(), prop_oneof![8 => Just(0u8), 1 => Just(1u8), 1 => Just(2u8)])
             .prop_map(|(msg, ts, twist)| Case::Config { msg, ts, twist }),
